@@ -218,12 +218,12 @@ class Ctx:
             if rc != 0:
                 raise CheckerBroken("coq_makefile failed in %s: %s" % (group, out[-500:]))
 
-    def make(self, group, targets=None, timeout=1800, clean=False):
+    def make(self, group, targets=None, timeout=1800, clean=False, keep_going=False):
         """Full (.vo) build of a group. Returns (ok, log)."""
         for dep in (["common"] if group != "common" else []) + list(group_deps(group)):
-            ok, out = self.make(dep, None, timeout)
-            if not ok:
-                return False, out
+            # keep going: a file of a dependency group that this group does not import must not
+            # fail this build (if a needed .vo is missing the build below fails anyway)
+            self.make(dep, None, timeout, keep_going=True)
         self._ensure_makefile(group)
         d = os.path.join(COQ, group)
         lock = open(os.path.join(CACHE, "make-%s.lock" % group), "w")
@@ -232,7 +232,7 @@ class Ctx:
         try:
             if clean:
                 sh(["make", "clean"], cwd=d, timeout=120)
-            cmd = ["make", "-j%d" % NCPU] + (targets or [])
+            cmd = ["make", "-j%d" % NCPU] + (["-k"] if keep_going else []) + (targets or [])
             rc, out = sh(cmd, cwd=d, timeout=timeout)
         finally:
             fcntl.flock(lock, fcntl.LOCK_UN)
@@ -260,7 +260,7 @@ class Ctx:
         # Print Assumptions, in a scratch file compiled on every run
         d = os.path.join(COQ, group)
         logical = group_logical(group)
-        afn = os.path.join(d, "Assum_%s_%s.v" % (self.prop, module))
+        afn = os.path.join(d, "Assum_%s_%s_%d.v" % (self.prop, module, os.getpid()))
         with open(afn, "w") as f:
             f.write("From %s Require Import %s.\n" % (logical, module))
             for t in theorems:
@@ -420,7 +420,7 @@ class Ctx:
 
         def one(sh_):
             base, ts = sh_
-            name = "cases_%s_%s_%d" % (self.prop, tag, base)
+            name = "cases_%s_%s_%d_%d" % (self.prop, tag, os.getpid(), base)
             fn = os.path.join(d, name + ".v")
             with open(fn, "w") as f:
                 f.write(requires + "\n")
